@@ -427,6 +427,29 @@ func zeroKinds(fd *ast.FuncDecl) (cases [][2]string, defaultPanics bool) {
 	return
 }
 
+// callsOf: the names of the functions and methods a function's body calls (identifiers and the
+// selector's method name), sorted, without duplicates.
+func callsOf(fd *ast.FuncDecl) []string {
+	seen := map[string]bool{}
+	ast.Inspect(fd.Body, func(n ast.Node) bool {
+		if c, ok := n.(*ast.CallExpr); ok {
+			switch f := c.Fun.(type) {
+			case *ast.Ident:
+				seen[f.Name] = true
+			case *ast.SelectorExpr:
+				seen[f.Sel.Name] = true
+			}
+		}
+		return true
+	})
+	var out []string
+	for k := range seen {
+		out = append(out, k)
+	}
+	sort.Strings(out)
+	return out
+}
+
 func main() {
 	repo := "/repo"
 	out := "/verif/lean/WireV/Generated/Tables.lean"
@@ -518,6 +541,12 @@ func main() {
 	}
 	w("/-- the typed basic kinds of go/types with their BasicInfo flags -/\n")
 	w("def basicKinds : List (String × List String) := [%s]\n\n", strings.Join(items, ", "))
+
+	w("/-- functions called by `Load` (wire check / show), by `gen.inject` and by `generateInjectors` (wire gen) -/\n")
+	w("def loadCalls : List String := %s\n", lstr(callsOf(findFunc(pf, "", "Load"))))
+	w("def injectCalls : List String := %s\n", lstr(callsOf(findFunc(wf, "gen", "inject"))))
+	w("def generateInjectorsCalls : List String := %s\n", lstr(callsOf(findFunc(wf, "", "generateInjectors"))))
+	w("def processNewSetCalls : List String := %s\n\n", lstr(callsOf(findFunc(pf, "objectCache", "processNewSet"))))
 
 	var kws []string
 	for t := token.BREAK; t <= token.VAR; t++ {
